@@ -300,7 +300,8 @@ impl<E: FieldElement> OpFlags<E> {
             + adv_popw_expacc
             + swapwx_flag
             + ext2mul_flag
-            + degree4_op_flags[0];
+            + degree4_op_flags[0]
+            + degree7_op_flags[9]; // CALLER
 
         no_shift_flags[5] = no_shift_flags[4] + mov4_flag;
         no_shift_flags[6] = no_shift_flags[5] + mov5_flag;
